@@ -402,10 +402,13 @@ func (e *kvElection) becomeLeader(token string, rev uint64) {
 		return
 	}
 
-	e.isLeader.Store(true)
+	// The claim is published last: readers that do not take the mutex (the
+	// watch handler, the refresh loop, Token()) must find the token and the
+	// revision of this term once they see isLeader.
 	e.leaderID.Store(e.cfg.InstanceID)
 	e.token.Store(token)
 	e.revision.Store(rev)
+	e.isLeader.Store(true)
 	e.state.Store(StateLeader)
 	now := time.Now()
 	e.lastHeartbeat.Store(now)
